@@ -270,12 +270,19 @@ fn who(f: fn(u16) -> Who) -> BoxedStrategy<Who> {
 fn op_group() -> BoxedStrategy<Vec<Op>> {
     let one = |s: BoxedStrategy<Op>| s.prop_map(|o| vec![o]).boxed();
     // one staker piles up many pending claims (partial unbonds spread over blocks), then claims around a release date
-    let pile = (user(), 8usize..26, -1i8..=1)
+    // (a pile of more than 30 claims is left alone until all of it has matured, and is then claimed in one go)
+    let pile = (user(), prop_oneof![3 => 8usize..26, 1 => 31usize..46], -1i8..=1)
         .prop_map(|(u, n, d)| {
             let mut g = vec![Op::Bond { by: Who::User(u), amt: Amt::Abs(N(5000)) }];
             for i in 0..n {
                 g.push(Op::Unbond { by: Who::User(u), amt: Amt::Abs(N(1 + i as u128 % 3)) });
                 g.push(Op::Advance { blocks: 1 + (i as u16 % 2), secs: 5, nanos: 0 });
+            }
+            if n > 30 {
+                g.push(Op::Advance { blocks: 299, secs: 199_999, nanos: 0 });
+                g.push(Op::Claim { by: Who::User(u) });
+                g.push(Op::Claim { by: Who::User(u) });
+                return g;
             }
             g.push(Op::AdvanceToRelease { by: Who::User(u), d, fine: false });
             g.push(Op::Claim { by: Who::User(u) });
